@@ -27,6 +27,7 @@ type task struct {
 	parked bool
 	want   *sync.Mutex
 	site   string
+	sel    int // which select case the task looks at first after this release
 	parks  int // number of times parked (for spin detection)
 	spins  int // consecutive parks at a spin site
 }
@@ -55,6 +56,12 @@ type Sched struct {
 	born        int
 	cids        [256]cidEnt
 	ncids       int
+	lockWait    [64]lockWaiter
+}
+
+type lockWaiter struct {
+	mu *sync.Mutex
+	ch chan struct{}
 }
 
 type cidEnt struct {
@@ -142,7 +149,9 @@ func (s *Sched) taskEnd() {
 		// deferred unlocks first, so this is only a safety net)
 		for j := range s.owners {
 			if s.owners[j].mu != nil && s.owners[j].slot == i {
+				m := s.owners[j].mu
 				s.owners[j].mu = nil
+				s.wakeWaitersLocked(m)
 			}
 		}
 	}
@@ -156,26 +165,93 @@ func (s *Sched) park(want *sync.Mutex, site string) {
 	g := curGid()
 	s.mu.Lock()
 	i := s.find(g)
-	if i < 0 || s.passthrough {
+	if i >= 0 && !s.passthrough {
+		t := &s.tasks[i]
+		t.want = want
+		t.site = site
+		t.wake = make(chan struct{})
+		t.parked = true
+		t.parks++
+		if site == "cs.spin" {
+			t.spins++
+		} else if site != "cs.atomic" {
+			t.spins = 0
+		}
+		w := t.wake
+		s.mu.Unlock()
+		<-w
+		if want == nil {
+			raceOn()
+			return
+		}
+		s.mu.Lock()
+		if s.ownerSlotLocked(want) == i {
+			// released by the scheduler, which recorded the ownership
+			s.mu.Unlock()
+			raceOn()
+			return
+		}
+		// woken by releaseAll (teardown): take the shadow lock below
+	}
+	// Unregistered goroutine, or teardown (pass-through): nothing is parked,
+	// but a mutex is still acquired through the owner table first, waiting on
+	// a channel while somebody else holds it. Blocking on the real mutex would
+	// not be a durable block: the bubble's clock stops while any goroutine
+	// waits for a sync.Mutex, and emulator code that sleeps while holding a
+	// lock (the back-off loop of clientState.unblock under RequestClose) would
+	// never wake up.
+	if want == nil {
 		s.mu.Unlock()
 		raceOn()
-		return // unregistered goroutine or teardown: pass through
+		return
 	}
-	t := &s.tasks[i]
-	t.want = want
-	t.site = site
-	t.wake = make(chan struct{})
-	t.parked = true
-	t.parks++
-	if site == "cs.spin" {
-		t.spins++
-	} else if site != "cs.atomic" {
-		t.spins = 0
+	for {
+		if !s.ownedLocked(want) {
+			s.setOwner(want, i)
+			s.mu.Unlock()
+			raceOn()
+			return
+		}
+		ch := make(chan struct{})
+		placed := false
+		for j := range s.lockWait {
+			if s.lockWait[j].mu == nil {
+				s.lockWait[j] = lockWaiter{mu: want, ch: ch}
+				placed = true
+				break
+			}
+		}
+		s.mu.Unlock()
+		if !placed {
+			// table full: fall back to the real mutex
+			raceOn()
+			return
+		}
+		<-ch
+		s.mu.Lock()
 	}
-	w := t.wake
-	s.mu.Unlock()
-	<-w
-	raceOn()
+}
+
+// wakeWaitersLocked wakes the goroutines waiting for the shadow of mu.
+//
+//go:norace
+func (s *Sched) wakeWaitersLocked(mu *sync.Mutex) {
+	for j := range s.lockWait {
+		if s.lockWait[j].mu == mu {
+			close(s.lockWait[j].ch)
+			s.lockWait[j] = lockWaiter{}
+		}
+	}
+}
+
+//go:norace
+func (s *Sched) ownerSlotLocked(mu *sync.Mutex) int {
+	for i := range s.owners {
+		if s.owners[i].mu == mu {
+			return s.owners[i].slot
+		}
+	}
+	return -2
 }
 
 //go:norace
@@ -198,6 +274,7 @@ func (s *Sched) afterUnlock(mu *sync.Mutex, site string) {
 			s.owners[i].mu = nil
 		}
 	}
+	s.wakeWaitersLocked(mu)
 	s.mu.Unlock()
 	raceOn()
 }
@@ -281,6 +358,37 @@ func (s *Sched) snapshot(out *[maxTasks]cand, blocked *[maxTasks]bool) (n int, a
 	s.mu.Unlock()
 	raceOn()
 	return
+}
+
+// selectFirst is the SelectFirst hook: the answer was decided by the scheduler
+// (from the tape) when it released the task from the yield point in front of
+// the select.
+//
+//go:norace
+func (s *Sched) selectFirst(site string, n int) int {
+	raceOff()
+	g := curGid()
+	s.mu.Lock()
+	r := 0
+	if i := s.find(g); i >= 0 && !s.passthrough {
+		r = s.tasks[i].sel
+	}
+	s.mu.Unlock()
+	raceOn()
+	if r < 0 || r >= n {
+		r = 0
+	}
+	return r
+}
+
+//go:norace
+func (s *Sched) releaseSlotSel(slot int, sel int) {
+	raceOff()
+	s.mu.Lock()
+	s.tasks[slot].sel = sel
+	s.mu.Unlock()
+	raceOn()
+	s.releaseSlot(slot)
 }
 
 //go:norace
